@@ -220,6 +220,16 @@ class Double(Decimal):
     __type_name__ = 'double'
     Value = float
 
+    @staticmethod
+    def validate_native(cls, value):
+        # Comparing NaN with the Decimal bounds raises decimal.InvalidOperation
+        # instead of returning False. NaN is not inside any range, just like
+        # the infinities are not inside the default open range.
+        if isinstance(value, float) and value != value:
+            return False
+
+        return Decimal.validate_native(cls, value)
+
     if platform.python_version_tuple()[:2] == ('2','6'):
         class Attributes(Decimal.Attributes):
             """Customizable attributes of the :class:`spyne.model.primitive.Double`
